@@ -123,10 +123,23 @@ class Mir:
                 prev_fn = name
             else:
                 # const NAME: TYPE = const VALUE;    or   const NAME: TYPE = {  body }
-                cm = re.match(r'(.*?): (.*) = (.*)$', head, re.S)
-                if not cm:
+                # split "NAME: TYPE = RHS" at the first ': ' outside angle brackets (impl spans contain ': ')
+                depth = 0
+                cut = None
+                for ci, ch in enumerate(head):
+                    if ch == '<':
+                        depth += 1
+                    elif ch == '>' and head[ci - 1] != '-':
+                        depth -= 1
+                    elif ch == ':' and depth == 0 and head[ci:ci + 2] == ': ' and head[ci - 1] != ':':
+                        cut = ci
+                        break
+                if cut is None or ' = ' not in head[cut:]:
                     continue
-                full, typ, rhs = cm.group(1).strip(), cm.group(2).strip(), cm.group(3).strip()
+                full = head[:cut].strip()
+                rest = head[cut + 2:]
+                eqi = rest.rindex(' = ')
+                typ, rhs = rest[:eqi].strip(), rest[eqi + 3:].strip()
                 if rhs == '{':
                     end = text.find('\n}\n', m.end())
                     body = text[m.end() + 1:end + 1]
